@@ -25,4 +25,7 @@ for mode in c.modes:
         for o in obs:
             if o.result != 'unsat':
                 print('   ', o.name, o.result, o.props, str(o.goal)[:200].replace('\n', ' '))
+                if os.environ.get('VF_HYPS'):
+                    for h in o.hyps[-int(os.environ['VF_HYPS']):]:
+                        print('        H:', str(h)[:300].replace('\n', ' '))
 solve.close()
